@@ -48,6 +48,11 @@ type Opts struct {
 	TabStopStay  bool // ~T with the cursor exactly at colnum outputs nothing
 	SpaceHyphen  bool // "twenty one" instead of "twenty-one"
 	Negative     bool // "negative" instead of "minus"
+	// BaseBound: the caller has bound *print-base* or *print-radix*. A
+	// non-integer given to ~D ~B ~O ~X is then not judged: slip's text says
+	// "the Aesthetic directive is used", CLHS says ~A format in the radix of
+	// the directive, and the two differ for integers inside the argument.
+	BaseBound bool
 	// Trace, when set, is told which value each executed directive used:
 	// role "arg" (the argument), "param" (resolved prefix parameter i; K ""
 	// when omitted or nil), "v-nil" (a v parameter that was given nil),
@@ -733,6 +738,9 @@ func (st *state) integer(d *Dir, a *actx, ps []rp, base int) {
 	if !ok {
 		if 0 < len(d.Params) || d.Colon || d.At {
 			fail("unspec", "non-integer argument with parameters or modifiers")
+		}
+		if st.o.BaseBound {
+			fail("unspec", "non-integer argument to an integer directive while *print-base* / *print-radix* are bound")
 		}
 		st.out = append(st.out, []rune(st.p.Princ(v))...)
 		return
